@@ -177,12 +177,14 @@ theorem arun_accepts (eq : Nat → Nat → Bool) (hsym : ∀ a b, eq a b = eq b 
 
 /-- facts about the score bookkeeping that acceptance depends on -/
 structure Inv (s : St) : Prop where
-  adj : 0 ≤ s.currAdj
-  best : s.bestScore = -1 ∨ (0 ≤ s.bestScore ∧ 0 ≤ s.matchedIndex)
+  /-- a pending best candidate has set `matchedIndex` (scores themselves may have wrapped: nothing is assumed about them) -/
+  best : s.bestScore = -1 ∨ 0 ≤ s.matchedIndex
+  /-- after the first commit `matchedIndex` stays non-negative (the library never resets it) -/
+  seen : s.matched ≠ [] → 0 ≤ s.matchedIndex
   len : s.matched.length = s.patternIndex
   mi : -1 ≤ s.matchedIndex
 
-theorem inv_init : Inv ({} : St) := ⟨by decide, Or.inl rfl, rfl, by decide⟩
+theorem inv_init : Inv ({} : St) := ⟨Or.inl rfl, by simp, rfl, by decide⟩
 
 /-- the "candidate matches the current pattern rune" half of an iteration -/
 def matchHalf (ri : RuneInfo) (pc : Nat) (s : St) (j candidate : Nat) : St :=
@@ -195,7 +197,7 @@ def matchHalf (ri : RuneInfo) (pc : Nat) (s : St) (j candidate : Nat) : St :=
       match s.matched with
       | lastMatch :: _ =>
         let bonus := adjacentCharBonus s.lastIndex lastMatch s.currAdj
-        (sc3 + bonus, s.currAdj + bonus)
+        (wrap64 (sc3 + bonus), wrap64 (s.currAdj + bonus))
       | [] => (sc3, s.currAdj)
     if sc4 > s.bestScore then { s with bestScore := sc4, matchedIndex := j, currAdj := adj }
     else { s with currAdj := adj }
@@ -209,16 +211,13 @@ def commitHalf (s1 : St) (cond : Bool) : St :=
         let penalty : Int := s1.matchedIndex * (-5)
         s1.bestScore + (if penalty > -15 then penalty else -15)
       else s1.bestScore
-    { s1 with score := s1.score + best, matched := s1.matchedIndex.toNat :: s1.matched,
+    { s1 with score := wrap64 (s1.score + best), matched := s1.matchedIndex.toNat :: s1.matched,
               bestScore := -1, patternIndex := s1.patternIndex + 1 }
   else s1
 
 theorem stepRune_oob (ri : RuneInfo) (pat : Array Nat) (s : St) (j c nextc : Nat) (h : ¬ s.patternIndex < pat.size) :
     stepRune ri pat s j c nextc = .error .indexOutOfRange := by
   unfold stepRune; simp only [h, dite_false]
-
-theorem adjacentCharBonus_nonneg (i lastMatch : Nat) (cur : Int) (h : 0 ≤ cur) : 0 ≤ adjacentCharBonus i lastMatch cur := by
-  unfold adjacentCharBonus; split <;> omega
 
 theorem matchHalf_spec (ri : RuneInfo) (pc : Nat) (s : St) (j c : Nat) (hinv : Inv s) :
     let s1 := matchHalf ri pc s j c
@@ -239,36 +238,30 @@ theorem matchHalf_spec (ri : RuneInfo) (pc : Nat) (s : St) (j c : Nat) (hinv : I
          else (if (j == 0) = true then (0 : Int) + 10 else 0))) = sc3
     have h3 : 0 ≤ sc3 := by
       rw [← hsc3]; split <;> split <;> split <;> omega
-    have hadj := hinv.adj
     have hbest := hinv.best
+    have hseen := hinv.seen
     have hmi := hinv.mi
     have hlen := hinv.len
     cases hm : s.matched with
     | nil =>
       simp only
       split
-      · refine ⟨⟨hadj, Or.inr ⟨by simp only; omega, by simp only; omega⟩, by simpa [hm] using hlen, by simp only; omega⟩, rfl, ?_⟩
+      · refine ⟨⟨Or.inr (by simp only; omega), fun _ => by simp only; omega, by simpa [hm] using hlen, by simp only; omega⟩, rfl, ?_⟩
         simp only [decide_eq_true_eq]; omega
       · rename_i hle
-        have : 0 ≤ s.bestScore ∧ 0 ≤ s.matchedIndex := by
+        have : 0 ≤ s.matchedIndex := by
           rcases hbest with h | h
           · exfalso; rw [h] at hle; omega
           · exact h
-        refine ⟨⟨hadj, Or.inr this, by simpa [hm] using hlen, hmi⟩, rfl, ?_⟩
+        refine ⟨⟨Or.inr this, fun _ => this, by simpa [hm] using hlen, hmi⟩, rfl, ?_⟩
         simp only [decide_eq_true_eq]; omega
     | cons lastMatch rest =>
       simp only
-      have hb := adjacentCharBonus_nonneg s.lastIndex lastMatch s.currAdj hadj
+      have hs : 0 ≤ s.matchedIndex := hseen (by rw [hm]; simp)
       split
-      · refine ⟨⟨by simp only; omega, Or.inr ⟨by simp only; omega, by simp only; omega⟩, by simpa [hm] using hlen,
-          by simp only; omega⟩, rfl, ?_⟩
+      · refine ⟨⟨Or.inr (by simp only; omega), fun _ => by simp only; omega, by simpa [hm] using hlen, by simp only; omega⟩, rfl, ?_⟩
         simp only [decide_eq_true_eq]; omega
-      · rename_i hle
-        have : 0 ≤ s.bestScore ∧ 0 ≤ s.matchedIndex := by
-          rcases hbest with h | h
-          · exfalso; rw [h] at hle; omega
-          · exact h
-        refine ⟨⟨by simp only; omega, Or.inr this, by simpa [hm] using hlen, hmi⟩, rfl, ?_⟩
+      · refine ⟨⟨Or.inr hs, fun _ => hs, by simpa [hm] using hlen, hmi⟩, rfl, ?_⟩
         simp only [decide_eq_true_eq]; omega
 
 theorem stepRune_eq (ri : RuneInfo) (pat : Array Nat) (s : St) (j c nextc : Nat) (h : s.patternIndex < pat.size) :
@@ -293,7 +286,7 @@ theorem commitHalf_spec (s1 : St) (cond : Bool) (hinv : Inv s1) :
     simp only [if_true]
     have hmi : s1.matchedIndex > -1 := by
       simp only [Bool.and_eq_true, decide_eq_true_eq] at hc; exact hc.2
-    refine ⟨⟨hinv.adj, Or.inl rfl, ?_, hinv.mi⟩, ?_⟩
+    refine ⟨⟨Or.inl rfl, fun _ => by simp only; omega, ?_, hinv.mi⟩, ?_⟩
     · simp only [List.length_cons]; rw [hinv.len]
     · simpa using hmi
 
@@ -357,7 +350,7 @@ theorem loop_abs (ri : RuneInfo) (pat : Array Nat) :
       obtain ⟨hinv2, hc2⟩ := commitHalf_spec (matchHalf ri pat[s.patternIndex] s off r) cond hinv1
       generalize hs2 : commitHalf (matchHalf ri pat[s.patternIndex] s off r) cond = s2 at hstep hinv2 hc2
       -- the state handed to the next iteration
-      have hinv3 : Inv { s2 with lastIndex := off, last := r } := ⟨hinv2.adj, hinv2.best, hinv2.len, hinv2.mi⟩
+      have hinv3 : Inv { s2 with lastIndex := off, last := r } := ⟨hinv2.best, hinv2.seen, hinv2.len, hinv2.mi⟩
       have hloop : loop ri pat s ((r, off, w) :: rest) = loop ri pat { s2 with lastIndex := off, last := r } rest := by
         rw [loop_cons, nextc_eq, hstep]
       rw [hloop]
